@@ -12,6 +12,8 @@ else:
 import numpy as np
 import time
 
+from . import raw_utils
+
 
 def get_pfb_waterfall(pfb_voltages_x, pfb_voltages_y=None, fftlength=256, int_factor=1):
     """
@@ -84,12 +86,17 @@ def get_waterfall_from_raw(raw_filename, block_size, num_chans, int_factor=1, ff
     """
     with open(raw_filename, "rb") as f:
         i = 1
+        directio = 0
         chunk = f.read(80)
         while f"{'END':<80}".encode() not in chunk:
+            key, value = raw_utils.get_header_key_val(chunk.decode())
+            if key == 'DIRECTIO':
+                directio = int(value)
             chunk = f.read(80)
             i += 1
-        # Skip zero padding
-        chunk = f.read((512 - (80 * i % 512)))
+        # Skip zero padding, only present with DIRECTIO
+        if directio != 0:
+            chunk = f.read(-(80 * i) % 512)
         # Read data
         chunk = f.read(block_size)
         
